@@ -139,3 +139,14 @@ def b_g2_aff(lib, b):
     if b[lib.inf_off[2]] != 0:
         return None
     return (b_fq2(b[0:96]), b_fq2(b[96:192]))
+
+
+def px_pack(lib, digits):
+    """PowersOfX image: four BigInt<64> (whose size is one dword of the configuration)."""
+    st = lib.sizeof("BigInt<64>")
+    return b"".join(bi(d, 64) + bytes(st - 8) for d in digits)
+
+
+def px_unpack(lib, b):
+    st = lib.sizeof("BigInt<64>")
+    return [ib(b[st * i:st * i + 8]) for i in range(4)]
